@@ -876,6 +876,10 @@ func (e *driverEnv) evidence(pl plan, a *agg, wall, mainWall float64, mainRuns, 
 		MapRanges int               `json:"map_ranges"`
 		LockShims int               `json:"lock_shims"`
 		OnceShims int               `json:"once_shims"`
+		ChanShims int               `json:"chan_shims"`
+		SelShims  int               `json:"select_shims"`
+		WGShims   int               `json:"waitgroup_shims"`
+		ClkShims  int               `json:"clock_shims"`
 		GoStmts   int               `json:"go_statements"`
 		Packages  []string          `json:"packages"`
 	}
@@ -927,6 +931,10 @@ func (e *driverEnv) evidence(pl plan, a *agg, wall, mainWall float64, mainRuns, 
 		"map_ranges_instrumented":                    sf.MapRanges,
 		"lock_shims":                                 sf.LockShims,
 		"once_shims":                                 sf.OnceShims,
+		"channel_shims":                              sf.ChanShims,
+		"select_shims":                               sf.SelShims,
+		"waitgroup_shims":                            sf.WGShims,
+		"clock_shims":                                sf.ClkShims,
 		"go_statements_in_library":                   sf.GoStmts,
 		"decodes_ok":                                 a.decOK,
 		"decodes_failed":                             a.decFail,
@@ -959,6 +967,9 @@ func (e *driverEnv) evidence(pl plan, a *agg, wall, mainWall float64, mainRuns, 
 			"redecode_on_used_receiver":                a.counters["state-changes-redec"],
 			"field_assignment":                         a.counters["state-changes-set"],
 			"deferred_reader_reads":                    a.counters["deferred-reads"],
+			// workload shapes and blocking shims (C16)
+			"sibling_report_bursts": a.counters["sibling-bursts"],
+			"blocked_hand_overs":    a.counters["blocked-switches"],
 		},
 		"cross_process_keys_compared": a.crossShared,
 		"cross_process_keys_seen":     a.crossSeen,
